@@ -119,7 +119,7 @@ def run(tier, replay=None):
     r = C.rng(PROP)
     n_rec = {"warm": 6, "quick": 300, "thorough": 3000}[tier]
     n_hand = {"warm": 4, "quick": 150, "thorough": 1500}[tier]
-    n_ds = {"warm": 1, "quick": 2, "thorough": 6}[tier]
+    n_ds = {"warm": 1, "quick": 4, "thorough": 16}[tier]
     work = tempfile.mkdtemp(prefix="verif-c12-")
     try:
         # ------------------------------------------------------------------ record level
@@ -225,7 +225,7 @@ def run(tier, replay=None):
                 alleles.append(seq[j] + "".join(others[: k - 1]))
             bad = r.random() < 0.1
             rows = []
-            for _row in range(r.choice([0, 1, 2, 3, 5])):
+            for _row in range(r.choice([1, 1, 2, 3, 5])):   # assemble never formats zero rows (numpy cannot reshape them)
                 row = []
                 for al in alleles:
                     x = r.randrange(len(al))
@@ -290,11 +290,10 @@ def run(tier, replay=None):
         reqs, expect = [], []
         for d in range(n_ds):
             dsdir = os.path.join(work, f"ds{d}")
+            hard = d % 2 == 1     # shallow data + a strict reporting threshold: REFMASKED / ALT-less / NOA records
             ds = S.make_dataset(r, dsdir, n_samples=3, n_loci=r.choice([4, 5]), ploidies=r.choice([(2, 4), (2,), (4, 2, 2)]),
-                                max_snvs=4, features={"nodepth"}, depth=(4, 14))
-            extra = []
-            if d % 2 == 1:
-                extra = ["--haplotype-posterior-threshold", r.choice(["0.9", "1.0", "0.6"])]
+                                max_snvs=4, features={"nodepth"}, depth=(1, 3) if hard else (4, 14))
+            extra = ["--haplotype-posterior-threshold", r.choice(["1.0", "1.0", "0.95"])] if hard else []
             out, code, err = S.run_program(ds.assemble_argv(*mcmc, *extra))
             chk.count("pipeline:assemble-runs")
             if code != 0:
